@@ -14,7 +14,20 @@ STUBS = ["Arc._svg_parameterize -> recorder"]
 ASSUMPTIONS = ["oracle: the C01 specification interpreter run on the unsplit command list"]
 
 
-def h_split(ctx, cmds, cuts, method):
+def _construct(S, text, ctor):
+    if ctor == "kw":
+        return S.Path(d=text)
+    if ctor == "dict":
+        return S.Path({"d": text})
+    if ctor == "copy":
+        return S.Path(S.Path(text))
+    if ctor == "copy_kw":
+        from copy import copy
+        return copy(S.Path(d=text))
+    return S.Path(text)
+
+
+def h_split(ctx, cmds, cuts, method, ctor="pos"):
     S = ctx.S
     cmds = [tuple(c) for c in cmds]
     pieces, abstract = G.build(ctx, cmds)
@@ -23,17 +36,17 @@ def h_split(ctx, cmds, cuts, method):
     parts = [" ".join(pieces[bounds[i]:bounds[i + 1]]) for i in range(len(bounds) - 1)]
     with G.ArcStub(S):
         if method == "add":
-            p = S.Path(parts[0])
+            p = _construct(S, parts[0], ctor)
             for b in parts[1:]:
                 q = p + b
                 ctx.claim("add leaves operand", len(q) >= len(p) and q is not p)
                 p = q
         elif method == "iadd":
-            p = S.Path(parts[0])
+            p = _construct(S, parts[0], ctor)
             for b in parts[1:]:
                 p += b
         elif method == "parse":
-            p = S.Path(parts[0])
+            p = _construct(S, parts[0], ctor)
             for b in parts[1:]:
                 p.parse(b)
         elif method == "segment":
@@ -137,8 +150,14 @@ def harnesses(tier):
         cmds = [("M", 1, False)] + [(l, _grp(l, j), False) for j, l in enumerate(ch)]
         for cuts in ([1], [2], [3], [1, 2], [2, 3], [1, 3]):
             m = methods[(i + len(cuts) + cuts[0]) % 3]
-            hs.append({"name": "split/%s/%s/%s" % (_name(cmds), "-".join(map(str, cuts)), m), "fn": "h_split",
-                       "params": {"cmds": [list(c) for c in cmds], "cuts": cuts, "method": m}})
+            ctor = ["pos", "kw", "dict", "copy", "copy_kw"][(i + cuts[0] + len(cuts)) % 5]
+            hs.append({"name": "split/%s/%s/%s/%s" % (_name(cmds), "-".join(map(str, cuts)), m, ctor), "fn": "h_split",
+                       "params": {"cmds": [list(c) for c in cmds], "cuts": cuts, "method": m, "ctor": ctor}})
+            if len(cuts) == 2:
+                for m2 in methods:
+                    for c2 in ("kw", "dict", "copy_kw"):
+                        hs.append({"name": "split/%s/%s/%s/%s" % (_name(cmds), "-".join(map(str, cuts)), m2, c2), "fn": "h_split",
+                                   "params": {"cmds": [list(c) for c in cmds], "cuts": cuts, "method": m2, "ctor": c2}})
     enders = ["L", "z", "C", "Q", "A", "m", "h", "T"]
     for e in enders:
         ca = [("M", 1, False), (e, _grp(e, 0), False)]
